@@ -41,7 +41,9 @@ fn unwind_drop_case(prop: &str, cases: &mut dyn Write, meta: &mut dyn Write) {
         return;
     }
     let c = once_engine::OnceCase { kind: 0, data: vec![], polls: 2, class: "H:writer-dropped-while-unwinding".into() };
-    let checks: Vec<String> = stream_engine::unwind_drop_checks().into_iter().map(|f| format!("{}:{}", prop, f)).collect();
+    let mut all = stream_engine::unwind_drop_checks();
+    all.extend(stream_engine::long_queue_checks());
+    let checks: Vec<String> = all.into_iter().map(|f| format!("{}:{}", prop, f)).collect();
     let id = format!("{}-U0", prop);
     writeln!(cases, "once {} {}", id, once_engine::run(&c).to_string()).unwrap();
     writeln!(meta, "{}\t{}\t{}", id, c.class, checks.join(",")).unwrap();
@@ -185,6 +187,8 @@ fn main() {
                 "C04" => {
                     gen_serve::gen_c04(&mut rng, thorough, &mut emit_serve);
                     gen_serve::gen_far_future(&mut emit_serve);
+                    drop(emit_serve);
+                    pre_epoch_case(&prop, &mut cases, &mut meta);
                 }
                 "C05" => gen_serve::gen_c05(&mut rng, thorough, &mut emit_serve),
                 "C06" => {
